@@ -24,13 +24,15 @@ EqOps == {"==", "!="}
 NumPairs == { <<Pa, Lit(N1)>>, <<Lit(N1), Pa>>, <<Pa, Lit(N15)>>, <<Pa, Px>>, <<Px, Pa>>, <<Px, Lit(N1)>>, <<Lit(N2), Px>>, <<Lit(N1), Lit(N2)>>,
               <<Px, Py>>, <<Cur(<<>>), Lit(N1)>>, <<Pa, Pb>> }
 EqPairs == NumPairs \cup { <<Pa, Lit(Sa)>>, <<Lit(Sa), Pa>>, <<Pa, Lit(Bool(TRUE))>>, <<Pa, Lit(Null)>>, <<Lit(Null), Pa>>, <<Pa, Lit(N15)>>,
-                           <<Cur(<<>>), Lit(Sa)>>, <<Cur(<<>>), Lit(Null)>>, <<Px, Lit(Sa)>>, <<Pa, Py>>, <<Py, Pb>> }
+                           <<Cur(<<>>), Lit(Sa)>>, <<Cur(<<>>), Lit(Null)>>, <<Px, Lit(Sa)>>, <<Pa, Py>>, <<Py, Pb>>,
+                           \* a string literal that spells a number of the document, and a boolean-like one
+                           <<Pa, Lit(Str(<<49>>))>>, <<Lit(Str(<<49, 46, 53>>)), Pa>>, <<Cur(<<>>), Lit(Str(<<49>>))>>, <<Px, Lit(Str(<<50>>))>>, <<Pa, Lit(Str(<<116, 114, 117, 101>>))>> }
 TwoCur(l, r) == l.k = "path" /\ r.k = "path" /\ l.root = "@" /\ r.root = "@"
 Cmps == {Cmp(op, pr[1], pr[2]) : op \in NumOps, pr \in {pp \in NumPairs : ~TwoCur(pp[1], pp[2])}}
         \cup {Cmp(op, pr[1], pr[2]) : op \in EqOps, pr \in {pp \in EqPairs : ~TwoCur(pp[1], pp[2])}}
 Exists == { Exist(Pa), Exist(Pb), Exist(Cur(<<>>)), Exist(Px), Exist(Py), Exist(Root(<<>>)),
             NotP(Pa), NotP(Pb), NotP(Px), NotP(Py), NotP(Root(<<>>)), Exist(Cur(<<Nm(ka), Un(<<Idx(0)>>)>>)) }
-Regexes == { Re(Pa, "a"), Re(Cur(<<>>), "^a$"), Re(Px, "a"), Re(Pa, "^.*$") }
+Regexes == { Re(Pa, "a"), Re(Cur(<<>>), "^a$"), Re(Px, "a"), Re(Pa, "^.*$"), Re(Cur(<<>>), "^.*$"), Re(Px, "^.*$") }
 Atoms == Cmps \cup Exists \cup Regexes
 \* operands of the compound queries: one representative per behaviour class
 Core == { Exist(Pa), NotP(Pa), Exist(Pb), Exist(Px), NotP(Py), Cmp("==", Pa, Lit(N1)), Cmp("!=", Pa, Lit(N1)), Cmp("<", Pa, Lit(N2)),
